@@ -72,6 +72,21 @@ CLAIMED["C11"] = dict(
     technique="Kani/CBMC bounded model checking (SAT) over symbolic descriptors and permutations",
     design="4 (C11)")
 
+CLAIMED["C08"] = dict(
+    text="Bounded model checking of the compiled grid code (BaseGrid::plain/contains/at, grids_at): plain either "
+         "errs or establishes the representation invariant INV for every 7-number header; from any INV state the "
+         "lookup is panic-free and in bounds for all f64 geometry/query/margin; containment is borders + margin*cell "
+         "per axis and at()==Some iff contained; node values are reproduced at nodes for 1..3 bands; inside cells and "
+         "in the half-cell margin the result is the bilinear formula of the 4 surrounding nodes (and within their "
+         "range inside the grid); among several grids the first hit at margin 0, then at margin 0.5, then the null "
+         "grid/None.",
+    note=TRUST + "No library model except S-ANY for f64::ceil/floor in the memory-safety harnesses (arbitrary result, "
+         "an over-approximation). Grid sizes rows,cols in 2..3, bands 1..4, node values all f32 (safety) resp. "
+         "D-SMALL and quarter-cell query offsets (weights). Outside: continuity for arbitrary real geometry, NTv2 "
+         "sub-grid selection and operator sign/unit conventions until their harnesses are listed in the evidence.",
+    technique="Kani/CBMC bounded model checking (SAT): inductive representation invariant + exact-geometry interpolation oracle",
+    design="4 (C08)")
+
 NA = {
     "C05": "differential identities over compositions of libm functions on the ellipsoid: no precise libm in CBMC, no "
            "theory of sin/atanh/exp in z3/cvc5; uninterpreted functions erase what the property is about (DESIGN 4/C05)",
